@@ -256,17 +256,19 @@ SHAPES = {"empty": [], "one-open-1-block": [1], "one-open-2-blocks": [2], "two-o
 @contract("secsgem.common.protocol:Protocol._add_message_block", "C16")
 class AddMessageBlock:
     """O94 (bounded shape: 0..2 open transactions holding 1..2 blocks; system bytes, flags and contents symbolic, open
-    transactions under arbitrary - also equal to the new block's - system bytes): a block joins exactly the open message with
-    its system bytes, at the end (arrival order), or opens a new one; the message is returned exactly when the block carries
-    the end bit and is then forgotten; messages of other system bytes are not touched - interleaving does not matter."""
+    transactions under arbitrary - also equal to the new block's - system bytes): a continuation block (block number > 1) joins
+    exactly the open message with its system bytes, at the end (arrival order), or opens a new one; a FIRST block (block number
+    0 or 1) always starts a new message - blocks left over from an earlier transfer with the same system bytes that was never
+    completed are dropped (D36); the message is returned exactly when the block carries the end bit and is then forgotten;
+    messages of other system bytes are not touched - interleaving does not matter."""
 
-    cases = [(name, {"shape": name}) for name in SHAPES]
+    cases = [(f"{name}.{'first' if first else 'continuation'}-block", {"shape": name, "first": first}) for name in SHAPES for first in (True, False)]
 
-    def inputs(shape):
+    def inputs(shape, first):
         entries = [(Int(0, 2 ** 32 - 1), msg(n)) for n in SHAPES[shape]]
         return {"self": Obj(SecsIProtocol, _incomplete_messages=SymDict(*entries)), "block": blk()}
 
-    def requires(self, block):
+    def requires(self, block, case):
         keys = list(self._incomplete_messages.keys())
         distinct = True
         for a in range(len(keys)):
@@ -276,12 +278,12 @@ class AddMessageBlock:
         for m in self._incomplete_messages.values():
             for b in m._blocks:
                 open_not_ended = open_not_ended and not b._header._last_block
-        return distinct and open_not_ended and 0 <= block._header._system < 2 ** 32
+        return distinct and open_not_ended and 0 <= block._header._system < 2 ** 32 and (block._header._block <= 1) == case["first"]
 
     def raises():
         return {}
 
-    def ensures(self, block, old, result):
+    def ensures(self, block, old, result, case):
         sysb = block._header._system
         last = block._header._last_block
         old_items = list(old.self._incomplete_messages.items())
@@ -291,15 +293,17 @@ class AddMessageBlock:
             if k0 == sysb:
                 hit = m0
         out = {}
-        if hit is None:
+        if hit is None or case["first"]:
+            stale = 0 if hit is None else 1      # an unfinished earlier transfer under the same system bytes is dropped
             out["returned-iff-end-bit"] = (result is not None) == last
             if result is not None:
                 out["single-block-message"] = (len(result._blocks) == 1 and len(result._blocks[0]._data) == len(block._data)
                                                and forall(0, len(block._data), lambda t: result._blocks[0]._data[t] == block._data[t])
                                                and result._blocks[0]._header._system == sysb and result._blocks[0]._header._last_block)
-                out["open-messages-untouched"] = len(new_items) == len(old_items)
+                out["open-messages-untouched"] = len(new_items) == len(old_items) - stale and sysb not in self._incomplete_messages
             else:
-                out["opened"] = len(new_items) == len(old_items) + 1 and sysb in self._incomplete_messages
+                out["opened"] = (len(new_items) == len(old_items) + 1 - stale and sysb in self._incomplete_messages
+                                 and len(self._incomplete_messages[sysb]._blocks) == 1)
         else:
             n0 = len(hit._blocks)
             out["returned-iff-end-bit"] = (result is not None) == last
